@@ -95,7 +95,7 @@ func cmdCheck(args []string) int {
 		fmt.Fprintf(os.Stderr, "gowp: cannot load: %v\n", err)
 		return 2
 	}
-	timeout := 10000
+	timeout := 20000
 	all := false
 	if *tier == "thorough" {
 		timeout = 60000
@@ -149,7 +149,7 @@ func cmdCheck(args []string) int {
 	// lemmas serving the property
 	lem := P.lemmaObligations(*prop)
 	obls = append(obls, lem...)
-	workers := 6
+	workers := 4
 	solveAll(P, obls, timeout, all, workers)
 
 	known, fixedList := loadKnown(filepath.Join(*verif, "known_findings.txt"))
